@@ -186,6 +186,10 @@ func genNet(t *rapid.T, span int64) (*netDef, *chaincfg.Params) {
 		}
 		if rapid.IntRange(0, 4).Draw(t, fmt.Sprintf("aah%d", i)) == 0 {
 			d.AlwaysAct = uint32(rapid.IntRange(1, int(nd.Window)*8).Draw(t, fmt.Sprintf("alwaysActive%d", i)))
+			if rapid.IntRange(0, 3).Draw(t, fmt.Sprintf("aahFar%d", i)) == 0 {
+				// heights no chain reaches, at and beyond the signed 32-bit range ("never" spelled as a number)
+				d.AlwaysAct = rapid.SampledFrom([]uint32{1<<31 - 1, 1 << 31, 1<<31 + 250, 1<<32 - 1}).Draw(t, fmt.Sprintf("alwaysActiveFar%d", i))
+			}
 		}
 		nd.Deps[i] = d
 		tm := func(v int64) time.Time {
